@@ -159,12 +159,83 @@ pub const MODE_NEXT: u8 = 0;
 pub const MODE_FOLD: u8 = 1;
 pub const MODE_NEXT_THEN_FOLD: u8 = 2;
 
+/// Further modes go through `Iterator` methods that an implementation may specialise (`nth`, hence
+/// `skip` / `step_by`; `count`; `last`). They do not hand out every item: `drive` then returns the
+/// least number of items the iterator can have held and stores in `LAST_SLACK` how many more it may
+/// have held (0 = exact).
+pub const MODE_NTH: u8 = 3;
+pub const MODE_NEXT_THEN_COUNT: u8 = 4;
+pub const MODE_NEXT_THEN_LAST: u8 = 5;
+pub const NMODES: u8 = 6;
+pub static LAST_SLACK: std::sync::atomic::AtomicUsize = std::sync::atomic::AtomicUsize::new(0);
+
 /// Drive an iterator in the given mode, checking `size_hint` before every `next`, and that the
 /// iterator is fused. Returns an error text on a `size_hint` violation.
 pub fn drive<I: Iterator>(mut iter: I, mode: u8, split: usize, mut f: impl FnMut(I::Item)) -> Result<usize, String> {
     let mut hints: Vec<(usize, Option<usize>)> = Vec::new();
     let mut n = 0usize;
+    LAST_SLACK.store(0, std::sync::atomic::Ordering::Relaxed);
     match mode {
+        MODE_NTH => {
+            // nth(j) with j cycling through a small pattern: every Some stands for j + 1 items; the
+            // final None leaves at most j items unaccounted for.
+            let mut i = 0usize;
+            loop {
+                let j = (split + i) % 3;
+                i += 1;
+                let (lo, _) = iter.size_hint();
+                match iter.nth(j) {
+                    Some(item) => {
+                        n += j + 1;
+                        f(item)
+                    }
+                    None => {
+                        if lo > j {
+                            return Err(format!("size_hint lower bound {lo} but nth({j}) returned None"));
+                        }
+                        if iter.next().is_some() {
+                            return Err("iterator yielded an item after nth() returned None".to_string());
+                        }
+                        LAST_SLACK.store(j, std::sync::atomic::Ordering::Relaxed);
+                        break;
+                    }
+                }
+            }
+            return Ok(n);
+        }
+        MODE_NEXT_THEN_COUNT | MODE_NEXT_THEN_LAST => {
+            for _ in 0..split {
+                match iter.next() {
+                    Some(item) => {
+                        n += 1;
+                        f(item)
+                    }
+                    None => return Ok(n),
+                }
+            }
+            let (lo, hi) = iter.size_hint();
+            if mode == MODE_NEXT_THEN_COUNT {
+                let c = iter.count();
+                if lo > c || hi.map_or(false, |h| h < c) {
+                    return Err(format!("size_hint ({lo}, {hi:?}) does not bracket count() = {c}"));
+                }
+                return Ok(n + c);
+            }
+            match iter.last() {
+                Some(item) => {
+                    n += 1;
+                    f(item);
+                    // Everything between the prefix and the last item went unseen.
+                    LAST_SLACK.store(usize::MAX / 2, std::sync::atomic::Ordering::Relaxed);
+                }
+                None => {
+                    if lo > 0 {
+                        return Err(format!("size_hint lower bound {lo} but last() returned None"));
+                    }
+                }
+            }
+            return Ok(n);
+        }
         MODE_FOLD => {
             hints.push(iter.size_hint());
             iter.fold((), |(), item| {
